@@ -35,13 +35,12 @@ DOMAIN_VOCAB = [
     r"^signal_hook::iterator::backend::Handle::(add_signal|close|is_closed)$",
     r"^signal_hook::iterator::backend::SignalDelivery::<.*>::(pending|poll_pending|handle|with_pipe|get_read|get_read_mut)(::<.*>)?$",
     r"^signal_hook::iterator::backend::SignalIterator::<.*>::(poll_signal|new|handle)(::<.*>)?$",
-    r"^signal_hook::iterator::backend::Pending::<.*>::new$",
     r"^signal_hook::flag::(register|register_usize|register_conditional_shutdown|register_conditional_default)$",
 ]
 _VOCAB_RE = re.compile("|".join("(?:%s)" % v for v in DOMAIN_VOCAB))
 
 
-def keep_for(F, root, vocab=None):
+def keep_for(F, root, vocab=None, cross=False):
     """keep as calls: other crates' functions, impls of foreign traits (Drop, Clone, Deref, Iterator, ..), and the domain vocabulary;
     every other function of the root's own crate — private helpers, helper traits, closures — is inlined"""
     vre = re.compile("|".join("(?:%s)" % v for v in vocab)) if vocab else None
@@ -49,7 +48,7 @@ def keep_for(F, root, vocab=None):
     def keep(c):
         if not c.local or c.kind == "closure":
             return False
-        if c.crate != root.crate:
+        if c.crate != root.crate and not cross:
             return True
         if re.match(r"^<.* as (core|alloc|std)::", c.name):
             return True
@@ -61,8 +60,9 @@ def keep_for(F, root, vocab=None):
     return keep
 
 
-def NF(F, m, vocab=None, tag="nf"):
-    return inline.cached(F, m, keep=keep_for(F, m, vocab), tag=tag + ("|".join(vocab) if vocab else ""), hof=True, thread=True)
+def NF(F, m, vocab=None, tag="nf", cross=False):
+    """cross=True: also inline across workspace crates (a registry closure wrapping a signal-hook action is one frame with it)"""
+    return inline.cached(F, m, keep=keep_for(F, m, vocab, cross), tag=tag + ("|".join(vocab) if vocab else "") + ("+x" if cross else ""), hof=True, thread=True)
 
 
 def boundary_callers(F, fids, limit=8):
